@@ -4,6 +4,7 @@ import Resolvo.MDet.AsyncProofs
 import Resolvo.MDet.AsyncInv
 import Resolvo.MDet.AsyncOnce
 import Resolvo.MDet.CheckedProofs
+import Resolvo.MDet.AsyncDeps
 /-!
 # C10 / C11 — asynchronous metadata requests
 
@@ -24,6 +25,8 @@ order, provider call log (request start `c`/`d`, answer obtained `C`/`D`, cancel
 * C10, run level: `at_most_once_candidates` — along every run of the encoder loop no package's candidates are requested
   twice (`asyncStep_cinv` + `callbacks_issue_nothing`: the frame lemmas of `MDet/Frame.lean` show that clause generation
   never touches the provider cache);
+* C10, run level: `at_most_once_dependencies` — along every run of the encoder loop no solvable's dependencies are
+  requested twice (`asyncStep_dinv`; the callbacks are covered by the relational specification `QR`);
 * C10, one await: `request_only_if_unknown`, `listener_issues_nothing` — a `get_candidates` request is issued only
   when the answer is neither cached nor in flight and is marked in flight from then on; an await that finds a
   request in flight issues nothing;
@@ -75,6 +78,25 @@ theorem at_most_once_candidates {U : Universe} {P : Problem} {s0 : S} {a : AS} {
     (h0 : s0.issuedCands.Nodup) (h1 : ∀ n ∈ s0.issuedCands, n ∈ s0.fetchedCands) (h : ReachFrom U P s0 a s) :
     s.issuedCands.Nodup ∧ ∀ n ∈ s.issuedCands, n ∈ s.fetchedCands ∨ (a.inflight.lookup n).isSome = true :=
   candidates_requested_at_most_once h0 h1 h
+
+/-- C10 (run level, model): along every run of the encoder loop - any universe, problem, completion order - the
+    dependencies of no solvable are requested twice. `DInv` (MDet/AsyncDeps.lean) is the invariant behind it: the
+    `deps` futures that exist are pairwise distinct and belong to processed solvables, every requested solvable is
+    processed, and a future that has not started has not been requested; callbacks, polls of other futures and the
+    executor only extend the push queue by futures of newly processed solvables. -/
+theorem at_most_once_dependencies {U : Universe} {P : Problem} {s0 : S} {a : AS} {s : S}
+    (h0 : DInv {} s0 s0.queue) (h : ReachD U P s0 a s) : s.issuedDeps.Nodup :=
+  (dependencies_requested_at_most_once h0 h).1
+
+/-- the hypothesis holds at the start of a solve (nothing requested, nothing pushed) … -/
+theorem at_most_once_dependencies_fresh {U : Universe} {P : Problem} {s0 : S} {a : AS} {s : S}
+    (h1 : s0.issuedDeps = []) (h2 : s0.queue = []) (h : ReachD U P s0 a s) : s.issuedDeps.Nodup :=
+  at_most_once_dependencies (dinv_fresh s0 h1 h2) h
+
+/-- … and, non-vacuity, when `encode` has pushed the future of a newly processed solvable: one step of the loop
+    adopts it, polls it and records exactly its request -/
+example : ∃ a s, ReachD exU exP { queue := [.deps (some 0)], addedSolv := [some 0], asyncMode := true } a s ∧ s.issuedDeps = [0] :=
+  ⟨_, _, .step .start rfl, rfl⟩
 
 /-- the encoder's callbacks (clause generation) never issue a provider request nor touch what has been answered -/
 theorem callbacks_issue_nothing (U : Universe) (P : Problem) (r : TaskResult) : Preserves cacheView (runCallback U P r) :=
